@@ -63,6 +63,7 @@ structure St where
   verified : List Nat := []   -- pieces for which the implementation accepted the blob's bytes
   desync : Option String := none   -- first disagreement between model and implementation (reported at `done`)
   gates : List String := ["g1", "g2", "g3", "g4"]
+  deleted : Bool := false      -- the download entry was deleted under the torrent (harness op `delfile`)
 
 def npieces (s : St) : Nat := numPiecesOf s.pl s.blob.length
 
@@ -137,6 +138,8 @@ def obsMon (s : St) (impl : List String) : List String :=
        (s.verified.filter fun i => (f.drop (s.pl * i)).take s.pl != pieceOf s.pl s.blob i).map (fun i =>
          s!"side=impl key=verified-piece-changed bytes of verified piece {i} in the data file differ from the blob")
      | none => []) ++
+    (if cm == "1" && cacheTok == "-" then
+      ["side=impl key=complete-without-cache-file Complete() is true but the blob is not in the cache"] else []) ++
     (if cacheTok == "-" then [] else
       (if !allV then ["side=impl key=cache-early file is in the cache before every piece was verified"] else []) ++
       (if bytes? cacheTok ≠ some s.blob then ["side=impl key=cache-differs cached file differs from the blob"] else []))
@@ -270,6 +273,14 @@ def stepCore (s : St) (kind : String) (args impl : List String) : Option (St × 
       | ["panic"] => [s!"side=impl key=panic HasPiece panicked for index {pi}"]
       | _ => []
     pure (s, { obs := obs, branch := s!"has.{obs.headD ""}", propfails := pf })
+  | ["delfile"] =>
+    -- the download entry is deleted while the torrent instance lives on. Not part of the Lean model (its
+    -- theorems are about a torrent that is not deleted under in-flight calls): from here to the next `recreate`
+    -- the model is not compared, only the monitors that stay meaningful judge the implementation.
+    let ok := impl == ["ok"]
+    let atMove := s.ws.any (·.pos == "g4")
+    some ({ s with deleted := s.deleted || ok },
+          { obs := impl, branch := if !ok then "delfile.refused" else if atMove then "delfile.download-deleted-before-commit" else "delfile.ok" })
   | ["closefail"] =>
     -- the next Close of the download file handle reports an error; WritePiece ignores it (the bytes were
     -- written and verified before): no effect in the model
@@ -284,7 +295,7 @@ def stepCore (s : St) (kind : String) (args impl : List String) : Option (St × 
           { obs := ["ok"], branch := if same then "tornreopen.same" else if n < s.m.status.length then "tornreopen.short" else "tornreopen.long" })
   | ["recreate"] =>
     if !quiescent s.m then none else
-    some ({ s with m := KrakenModel.AgentTorrent.step crc32 s.m .recreate, verified := [], ws := [] },
+    some ({ s with m := KrakenModel.AgentTorrent.step crc32 s.m .recreate, verified := [], ws := [], deleted := false },
           { obs := ["ok"], branch := "recreate" })
   | ["reopen"] =>
     if !quiescent s.m then none else
@@ -297,9 +308,14 @@ def step (s : St) (kind : String) (args impl : List String) : Option (St × Step
   if kind = "op" ∧ args = ["done"] then
     some (s, { obs := match s.desync with | none => ["ok"] | some d => ["desync", d], branch := "done" })
   else match stepCore s kind args impl with
-    | none => none
+    | none => if s.deleted then some (s, { obs := impl, branch := "after-delete.skipped" }) else none
     | some (s', out) =>
-      if !impl.isEmpty && out.obs != impl then
+      if s.deleted && args != ["recreate"] then
+        let keep := ["key=complete-without-cache-file", "key=cache-differs", "key=cache-early", "key=accepted-corrupt", "key=panic"]
+        let pf := out.propfails.filter fun p => keep.any fun k => (p.splitOn k).length > 1
+        -- a write that returns ok although the entry is gone and nothing is in the cache
+        some ({ s' with desync := s'.desync }, { obs := impl, branch := "after-delete." ++ (args.headD "?"), propfails := pf })
+      else if !impl.isEmpty && out.obs != impl then
         let d := (s!"{sp args}:model={sp out.obs}:impl={sp impl}").replace " " "_"
         some ({ s' with desync := s'.desync <|> some d }, { out with obs := impl, branch := out.branch ++ "!desync" })
       else some (s', out)
